@@ -13,6 +13,8 @@ A layout is a JSON-able dict:
   threads      cbin only: n_threads of the mtscomp reader
 The ground truth is the array the generator wrote, never something read back through phylib.
 """
+import os
+
 import numpy as np
 
 EXTS = ['.dat', '.bin', '.raw', '.mda']
@@ -60,6 +62,10 @@ def build_reader(d, layout):
         for k, ln in enumerate(layout['parts']):
             # file names whose lexicographic order is the reverse of the recording order
             p = d / ('rec_%s%d%s' % (chr(ord('z') - k), k, EXTS[(k + int(layout.get('fill', 0))) % len(EXTS)]))
+            if len(layout['parts']) >= 2 and (sum(layout['parts']) + len(layout['parts'])) % 3 == 0:
+                # one directory per part, the same file name in each (experiment1/continuous.dat, ...)
+                os.makedirs(str(d / ('experiment%d' % (k + 1))), exist_ok=True)
+                p = d / ('experiment%d' % (k + 1)) / ('continuous' + EXTS[int(layout.get('fill', 0)) % len(EXTS)])
             with open(p, 'wb') as f:
                 f.write(b'\xab' * off)
                 f.write(np.ascontiguousarray(A[i0:i0 + ln]).tobytes())
